@@ -1,5 +1,5 @@
 ---------------------------- MODULE InjectionTrace ----------------------------
-(* {tid, ev:"req", client, errs:[{code,pos}], f, pos, status}  injection walks (one tid per    *)
+(* {tid, ev:"req", usage, client, errs:[{code,pos}], f, pos, status}  injection walks (one tid per *)
 (*      (configuration, usage); clients "a"/"b" have separate cookie jars)                      *)
 (* {tid, ev:"probe", status, requested, elapsed_ms, cap_ms}     robustness probes               *)
 (* {tid, ev:"xlate", want, got}  time -> segment number translation in media URLs               *)
@@ -12,15 +12,18 @@ Report(c, ok, detail) ==
     ELSE PrintT(<<"V", ToJson([line |-> l, tid |-> TraceLog[l].tid, clause |-> c, detail |-> detail])>>)
 Codes == {400, 401, 403, 404, 410, 500, 501, 502, 503, 504}
 Clients == {"a", "b"}
-Zero == [c \in Clients |-> [p \in 0..12 |-> 0]]
-ZeroC == [c \in Clients |-> [k \in Codes |-> 0]]
+Usages == {"video", "audio", "text", "manifest"}
+\* request counts and the implementation's failure counters are kept per client (cookie jar) and per usage:
+\* the failure budget of one media type must not be consumed by another (mixed walks share one tid)
+Zero == [c \in Clients |-> [u \in Usages |-> [p \in 0..12 |-> 0]]]
+ZeroC == [c \in Clients |-> [u \in Usages |-> [k \in Codes |-> 0]]]
 Step(t) ==
     /\ cur' = t.tid
     /\ IF t.ev = "req" THEN
          LET n0 == IF t.tid # cur THEN Zero ELSE nth
              c0 == IF t.tid # cur THEN ZeroC ELSE counters
-             n  == n0[t.client][t.pos] + 1
-             m  == ImplRequest(t.errs, t.pos, t.f, c0[t.client])
+             n  == n0[t.client][t.usage][t.pos] + 1
+             m  == ImplRequest(t.errs, t.pos, t.f, c0[t.client][t.usage])
          IN
          /\ Report("C16_OnlyAddressed", C16_OnlyAddressed(t.errs, t.pos, t.status), [pos |-> t.pos, status |-> t.status])
          /\ Report("C16_CodeAsAsked", C16_CodeAsAsked(t.errs, t.pos, t.status), [pos |-> t.pos, status |-> t.status])
@@ -30,8 +33,8 @@ Step(t) ==
          /\ Report("C16_No5xxUnlessRequested", C16_No5xxUnlessRequested(t.errs, t.pos, t.status),
                    [pos |-> t.pos, status |-> t.status, nth |-> n])
          /\ Report("DRIFT_injection", m.status = t.status, [model |-> m.status, real |-> t.status])
-         /\ nth' = [n0 EXCEPT ![t.client][t.pos] = n]
-         /\ counters' = [c0 EXCEPT ![t.client] = m.counters]
+         /\ nth' = [n0 EXCEPT ![t.client][t.usage][t.pos] = n]
+         /\ counters' = [c0 EXCEPT ![t.client][t.usage] = m.counters]
        ELSE IF t.ev = "probe" THEN
          /\ Report("C16_No5xxUnlessRequested", t.status < 500 \/ (t.requested # 0 /\ t.status = t.requested), [status |-> t.status])
          /\ Report("C16_Terminates", t.elapsed_ms <= t.cap_ms, [ms |-> t.elapsed_ms])
